@@ -1,11 +1,166 @@
-(* Props/C14.v — property C14: statements only; every proof is `exact <lemma>`. *)
-From Coq Require Import ZArith.
-From S4.Model Require Import Calendar.
-From S4.Spec Require Import CalendarSpec.
-From S4.Proofs Require Import CalendarProofs.
+(* Props/C14.v — property C14 (datetime-filter arguments resolve to the documented instant):
+   statements only; every proof is `exact <lemma>`; Print Assumptions after each. *)
+From Coq Require Import String ZArith.
+From S4.Base Require Import Bytes.
+From S4.Model Require Import Calendar CliDt.
+From S4.Gen Require Import CliDtTables.
+From S4.Spec Require Import CalendarSpec CliDtRef CliDtSpec.
+From S4.Proofs Require Import CalendarProofs CliDtSpecProofs CliDtAbsInfra CliDtAbsProofs CliDtMiscProofs.
 Open Scope Z_scope.
 
+(* ---- calendar: the era-based arithmetic of the model is the definitional day count, every year >= 0 *)
 Theorem C14_days_from_civil_is_definitional_count :
   forall y m d, 0 <= y -> 1 <= m <= 12 -> days_from_civil y m d = spec_days y m d.
 Proof. exact days_from_civil_spec. Qed.
 Print Assumptions C14_days_from_civil_is_definitional_count.
+
+Theorem C14_spec_evaluated_fast_is_spec :
+  forall fa fb tz now, spec_bounds_fast fa fb tz now = spec_bounds fa fb tz now.
+Proof. exact spec_bounds_fast_eq. Qed.
+Print Assumptions C14_spec_evaluated_fast_is_spec.
+
+(* ---- regenerated tables *)
+Theorem C14_zone_table_is_reference : tz_table_s = ref_tz_table.
+Proof. exact tz_table_matches_reference. Qed.
+Print Assumptions C14_zone_table_is_reference.
+
+Theorem C14_relative_expression_anchored : dur_anchor_start = true /\ dur_anchor_end = true.
+Proof. exact dur_expression_anchored. Qed.
+Print Assumptions C14_relative_expression_anchored.
+
+Theorem C14_epoch_read_as_utc : epoch_utc = true.
+Proof. exact epoch_read_as_utc. Qed.
+Print Assumptions C14_epoch_read_as_utc.
+
+(* ---- absolute forms: for ALL field values of the documented grammar *)
+Theorem C14_datetime_numeric_resolves :
+  forall l y m d h mi s fr z tz,
+    numeric_zone z ->
+    form_ok (FDateTime l y m d h mi s fr z) = true ->
+    m_resolve_abs (classify (render (FDateTime l y m d h mi s fr z))) tz
+    = denote (FDateTime l y m d h mi s fr z) tz 0 None.
+Proof. exact abs_datetime_numeric_resolves. Qed.
+Print Assumptions C14_datetime_numeric_resolves.
+
+Theorem C14_bare_date_is_midnight_in_tz :
+  forall l y m d tz,
+    form_ok (FDate l y m d) = true ->
+    m_resolve_abs (classify (render (FDate l y m d))) tz = denote (FDate l y m d) tz 0 None.
+Proof. exact abs_date_resolves. Qed.
+Print Assumptions C14_bare_date_is_midnight_in_tz.
+
+Theorem C14_named_zone_PST_partial :
+  forall l y m d h mi s fr sp tz,
+    form_ok (FDateTime l y m d h mi s fr (ZoneName sp "PST")) = true ->
+    m_resolve_abs (classify (render (FDateTime l y m d h mi s fr (ZoneName sp "PST")))) tz
+    = denote (FDateTime l y m d h mi s fr (ZoneName sp "PST")) tz 0 None.
+Proof. exact abs_named_PST_partial. Qed.
+Print Assumptions C14_named_zone_PST_partial.
+
+Theorem C14_named_zone_all_names_fixed_fields_partial :
+  forallb (fun name =>
+    forallb (fun l =>
+      match m_resolve_abs (classify (render (named_form l name))) 19800,
+            denote_with spec_days_fast (named_form l name) 19800 0 None with
+      | Some a, Some b => a =? b
+      | _, _ => false
+      end) [LCompact; LDashSpace; LDashT; LSlash]) (names_with false) = true.
+Proof. exact named_all_names_fixed_fields. Qed.
+Print Assumptions C14_named_zone_all_names_fixed_fields_partial.
+
+Theorem C14_plus_epoch_is_utc_partial :
+  forallb (fun tz => match m_resolve (cs "+1987184272") tz None 0 with
+                     | Some v => v =? 1987184272 * NS | None => false end)
+          [0; 19800; -12600; 50400; -43200; 3600] = true.
+Proof. exact plus_epoch_is_utc. Qed.
+Print Assumptions C14_plus_epoch_is_utc_partial.
+
+(* the code before the fix (epoch read in the --tz-offset zone): refuted *)
+Theorem C14_plus_epoch_refuted_before_fix :
+  resolve_with dur_anchor_start dur_anchor_end false (cs "+1987184272") 19800 None 0
+  = Some (1987164472 * NS).
+Proof. exact plus_epoch_refuted_before_fix. Qed.
+Print Assumptions C14_plus_epoch_refuted_before_fix.
+
+(* ---- relative forms *)
+Theorem C14_relative_examples_partial :
+  m_resolve (cs "-1w22h") 19800 None 1700000000 = Some ((1700000000 - (604800 + 22 * 3600)) * NS)
+  /\ m_resolve (cs "+30s") (-12600) None 1700000000 = Some ((1700000000 + 30) * NS)
+  /\ m_resolve (cs "+1w2d3h4m5s") 0 None 1700000000 = Some ((1700000000 + (604800 + 2 * 86400 + 3 * 3600 + 4 * 60 + 5)) * NS)
+  /\ m_resolve (cs "-5s4m3h2d1w") 0 None 1700000000 = Some ((1700000000 - (604800 + 2 * 86400 + 3 * 3600 + 4 * 60 + 5)) * NS)
+  /\ m_resolve (cs "-0012d00345m") 3600 None 1700000000 = Some ((1700000000 - (12 * 86400 + 345 * 60)) * NS)
+  /\ m_resolve (cs "@+90m") 3600 (Some 123456789) 1700000000 = Some (123456789 + 5400 * NS)
+  /\ m_resolve (cs "@-1d") 3600 None 1700000000 = None.
+Proof. exact relative_examples_partial. Qed.
+Print Assumptions C14_relative_examples_partial.
+
+Theorem C14_at_relative :
+  forall a rel tz now x d,
+    is_other (m_wdhms a) = false -> is_exit (m_wdhms a) = false ->
+    m_wdhms rel = DurOk d true ->
+    m_resolve a tz None now = Some x ->
+    resolve_abs cli_rows append_value append_pattern tz_table epoch_utc rel tz = None ->
+    0 <= d -> TS_MIN * NS <= x + d * NS <= TS_MAX * NS + (NS - 1) ->
+    CliDtMiscProofs.m_bounds (Some a) (Some rel) tz now = Some (Some x, Some (x + d * NS)).
+Proof. exact at_relative_before. Qed.
+Print Assumptions C14_at_relative.
+
+Theorem C14_at_relative_help_examples :
+  CliDtMiscProofs.m_bounds (Some (cs "20220102")) (Some (cs "@+1d")) (-12600) 1700000000
+  = CliDtMiscProofs.m_bounds (Some (cs "20220102")) (Some (cs "20220103")) (-12600) 1700000000
+  /\ CliDtMiscProofs.m_bounds (Some (cs "@-6h")) (Some (cs "20220101T120000")) 19800 1700000000
+     = CliDtMiscProofs.m_bounds (Some (cs "20220101T060000")) (Some (cs "20220101T120000")) 19800 1700000000
+  /\ CliDtMiscProofs.m_bounds (Some (cs "20220102")) (Some (cs "@+1d")) 0 1700000000
+     = Some (Some (1641081600 * NS), Some ((1641081600 + 86400) * NS)).
+Proof. exact at_relative_help_example. Qed.
+Print Assumptions C14_at_relative_help_examples.
+
+Theorem C14_spec_at_relative :
+  forall f items tz now x,
+    is_at (Some f) = false -> denote f tz now None = Some x ->
+    spec_bounds (Some f) (Some (FRel true false items)) tz now
+    = if x + rel_sum items * NSs <? x then None else Some (Some x, Some (x + rel_sum items * NSs)).
+Proof. exact spec_at_relative. Qed.
+Print Assumptions C14_spec_at_relative.
+
+(* ---- rejections *)
+Theorem C14_both_at_rejected :
+  forall a b tz now,
+    is_other (m_wdhms a) = true -> is_other (m_wdhms b) = true ->
+    CliDtMiscProofs.m_bounds (Some a) (Some b) tz now = None.
+Proof. exact both_at_rejected. Qed.
+Print Assumptions C14_both_at_rejected.
+
+Theorem C14_after_gt_before_rejected :
+  forall a b tz now x y, CliDtMiscProofs.m_bounds a b tz now = Some (Some x, Some y) -> x <= y.
+Proof. exact after_not_after_before. Qed.
+Print Assumptions C14_after_gt_before_rejected.
+
+Theorem C14_ambiguous_zone_names_rejected :
+  forallb (fun name =>
+    forallb (fun l =>
+      match m_resolve (classify (render (named_form l name))) 19800 None 1700000000 with
+      | Some _ => false | None => true end) [LCompact; LDashSpace; LDashT; LSlash]) (names_with true) = true.
+Proof. exact ambiguous_names_rejected. Qed.
+Print Assumptions C14_ambiguous_zone_names_rejected.
+
+(* near-miss strings (F4).  Universal at the level of the matcher for a foreign or digit first
+   character; the full statement "every near-miss string resolves to None" is proved only for
+   the witnesses (_partial) and sampled by runs B and C. *)
+Theorem C14_anchored_matcher_rejects_foreign_first_char :
+  forall c rest a_e, c <> 64%N -> c <> 43%N -> c <> 45%N -> m_search true a_e (Ch c :: rest) = None.
+Proof. exact anchored_rejects_foreign_first_char. Qed.
+Print Assumptions C14_anchored_matcher_rejects_foreign_first_char.
+
+Theorem C14_near_miss_witnesses_rejected_partial :
+  forallb (fun s => match m_resolve (cs s) 0 None 1700000000 with
+                    | Some _ => false | None => true end) near_miss_witnesses = true.
+Proof. exact near_miss_witnesses_rejected. Qed.
+Print Assumptions C14_near_miss_witnesses_rejected_partial.
+
+(* the code before the fix (unanchored expression) accepted every witness: refuted *)
+Theorem C14_near_miss_refuted_before_fix :
+  forallb (fun s => match resolve_with false false epoch_utc (cs s) 0 None 1700000000 with
+                    | Some _ => true | None => false end) near_miss_witnesses = true.
+Proof. exact near_miss_refuted_before_fix. Qed.
+Print Assumptions C14_near_miss_refuted_before_fix.
